@@ -1264,3 +1264,39 @@ package rockredis
 //@ func (db *RockDB) FullScan(dataType common.DataType, cursor []byte, count int, match string) *common.FullScanResult
 //@   trusted every return of fullScanGenericUseBuffer / fullScanCommon is buildErrFullScanResult(...) or a composite literal address
 //@   ensures result != nil && fresh(result)
+
+// ---- lazy physical removal by the compaction filter (C10: unexpired data is never removed) ----
+// A stored entry is dropped only (a) because its own / its collection's header says it expired more than
+// lazyCleanExpired ago, judged against the filter's cached clock (which is a past reading of the wall clock), or
+// (b) - collection elements only - because it belongs to a generation older than lazyCleanExpired whose collection
+// meta is gone or carries another generation.  Entries of generation 0 (no expiry support) are never dropped.
+// collKeyVer(k): the generation stamped into a collection element key (decoded by the C12 decoders).
+//@ property C10
+//@ spec collKeyVer(k []byte) int64
+//@ noeffect (*github.com/youzan/ZanRedisDB/rockredis.RockDB).GetDataDir
+//@ func convertCollDBKeyToRawKey(dbk []byte) (byte, []byte, int64, error)
+//@   trusted dispatches to the per-type key decoders (C12) and decodeVerKey; the generation is collKeyVer(dbk), a nanosecond time stamp written by prepareCollKeyForWrite (never negative)
+//@   requires len(dbk) >= 1
+//@   ensures result3 == nil ==> result2 == collKeyVer(dbk) && result0 == dbk[0]
+//@   ensures result2 >= 0 && result2 < 4611686018427387904
+//@ func encodeMetaKey(dt byte, key []byte) ([]byte, error)
+//@   trusted meta key of the collection (C12 encoders)
+//@ func (cf *rockCompactFilter) lazyExpireCheck(h headerMetaValue, curCnt int64) bool
+//@   requires cf != nil && cf.rdb != nil && cf.ExpiredCleanCnt < 4611686018427387904
+//@   ensures result ==> h.ExpireAt != 0 && h.ExpireAt > minExpiredPossible && int64(h.ExpireAt) + lazyCleanExpired / 1000000000 < cf.cachedTimeSec
+//@   ensures result ==> cf.ExpiredCleanCnt == old(cf.ExpiredCleanCnt) + 1
+//@   ensures !result ==> cf.ExpiredCleanCnt == old(cf.ExpiredCleanCnt)
+//@   ghostset ghost(lastexp, cf) := h.ExpireAt
+//@   modifies cf.cachedTimeSec, cf.checkedCnt, cf.ExpiredCleanCnt, ghost(lastexp, cf)
+//@ func (cf *rockCompactFilter) Filter(level int, key []byte, value []byte) (bool, []byte)
+//@   requires cf != nil && cf.rdb != nil && cf.ExpiredCleanCnt < 4611686018427387904 && cf.DelCleanCnt < 4611686018427387904 && cf.VersionCleanCnt < 4611686018427387904 && cf.checkedCnt < 4611686018427387904
+//@   requires 0 <= cf.cachedTimeSec && cf.cachedTimeSec < 4611686018 && 0 <= lazyCleanExpired && lazyCleanExpired < 4611686018427387904
+//@   ensures result1 == nil
+//@   ensures result0 ==> len(key) >= 1 && (cf.ExpiredCleanCnt + cf.DelCleanCnt + cf.VersionCleanCnt == old(cf.ExpiredCleanCnt + cf.DelCleanCnt + cf.VersionCleanCnt) + 1)
+//@   ensures !result0 ==> cf.ExpiredCleanCnt == old(cf.ExpiredCleanCnt) && cf.DelCleanCnt == old(cf.DelCleanCnt) && cf.VersionCleanCnt == old(cf.VersionCleanCnt)
+//@   ensures cf.ExpiredCleanCnt != old(cf.ExpiredCleanCnt) ==> ghost(lastexp, cf) != 0 && ghost(lastexp, cf) > minExpiredPossible && ghost(lastexp, cf) + lazyCleanExpired / 1000000000 < cf.cachedTimeSec
+//@   ensures result0 && (key[0] == KVType || key[0] == HSizeType || key[0] == LMetaType || key[0] == SSizeType || key[0] == ZSizeType || key[0] == BitmapMetaType) ==> cf.ExpiredCleanCnt != old(cf.ExpiredCleanCnt) && len(value) >= 13 && value[0] == 1 && ghost(lastexp, cf) == be32(value, 1)
+//@   ensures result0 && (key[0] == HashType || key[0] == ListType || key[0] == SetType || key[0] == ZSetType || key[0] == ZScoreType || key[0] == BitmapType) ==> collKeyVer(key) != 0 && collKeyVer(key) + lazyCleanExpired < old(cf.cachedTimeSec) * 1000000000
+//@   ensures cf.DelCleanCnt != old(cf.DelCleanCnt) ==> ghost(misses, cf.rdb) == old(ghost(misses, cf.rdb)) + 1
+//@   ensures cf.VersionCleanCnt != old(cf.VersionCleanCnt) ==> ghost(hits, cf.rdb) == old(ghost(hits, cf.rdb)) + 1
+//@   modifies cf.cachedTimeSec, cf.checkedCnt, cf.ExpiredCleanCnt, cf.DelCleanCnt, cf.VersionCleanCnt, ghost(lastexp, cf), ghost(misses, cf.rdb), ghost(hits, cf.rdb), ghost(readerrs, cf.rdb)
